@@ -76,6 +76,22 @@ def run(ck):
             if numpy.abs(va - vb).max() > 1e-9 * max(sc, numpy.abs(numpy.array(RT_t.data)).max()):
                 ck.fail("apply:ops-vs-tensor%s" % (":context" if ctx else ""), "operator form and tensor form act differently on an operator",
                         dict(inp, in_context=ctx), float(numpy.abs(va - vb).max()))
+        # apply(..., copy=False): the result is written to the operand; operands with real- and integer-typed data as well
+        for dtname, mk_ in (("float", lambda: numpy.array([[float(rng.randint(-4, 4)) for _ in range(n)] for _ in range(n)])),
+                            ("int", lambda: numpy.array([[rng.randint(-4, 4) for _ in range(n)] for _ in range(n)], dtype=int)),
+                            ("complex", lambda: randop(n))):
+            Ad = mk_()
+            try:
+                oa, ob = Operator(data=Ad.copy()), Operator(data=Ad.copy())
+                ra = RT_t.apply(oa, copy=False); rb = RT_o.apply(ob, copy=False)
+                va, vb = numpy.array((ra if ra is not None else oa).data), numpy.array((rb if rb is not None else ob).data)
+                vref = numpy.tensordot(numpy.array(RT_t.data), Ad.astype(complex))
+                scr = max(1e-300, float(numpy.abs(vref).max()))
+                if numpy.abs(va - vref).max() > 1e-9 * scr or numpy.abs(vb - vref).max() > 1e-9 * scr:
+                    ck.fail("apply:copy-false:%s" % dtname, "apply(A, copy=False) on an operand with %s data: tensor form and operator form do not both give R[A]" % dtname,
+                            dict(inp, operand_dtype=dtname), [float(numpy.abs(va - vref).max() / scr), float(numpy.abs(vb - vref).max() / scr)])
+            except Exception as e:
+                ck.fail("raises:apply:copy-false", "apply(copy=False) raised %r" % (e,), dict(inp, operand_dtype=dtname))
         # propagated dynamics: tensor vs operators vs model
         rho0, _ = SY.rand_state(numpy, rng, n)
         rho0[0, :] = 0; rho0[:, 0] = 0; rho0 = rho0 / numpy.trace(rho0)
@@ -90,6 +106,23 @@ def run(ck):
         if numpy.abs(dt_ - do_).max() > 1e-9:
             ck.fail("propagate:ops-vs-tensor", "operator-form and tensor-form propagation differ (method %s)" % meth, dict(inp, method=meth),
                     float(numpy.abs(dt_ - do_).max()))
+        # the same pair with an additional pure-dephasing object (Gaussian and Lorentzian): still the same dynamics from both forms
+        try:
+            from quantarhei.qm import PureDephasing
+            gam_ = numpy.zeros((n, n))
+            for i_ in range(n):
+                for j_ in range(i_ + 1, n):
+                    gam_[i_, j_] = gam_[j_, i_] = rng.randint(1, 8) / 256.0
+            for dtyp in ("Gaussian", "Lorentzian"):
+                pdt = ReducedDensityMatrixPropagator(tp, ham, RT_t, PDeph=PureDephasing(drates=gam_.copy(), dtype=dtyp))
+                pdo = ReducedDensityMatrixPropagator(tp, ham2, RT_o, PDeph=PureDephasing(drates=gam_.copy(), dtype=dtyp))
+                ddt = numpy.array(pdt.propagate(ReducedDensityMatrix(data=rho0.copy()), method=meth, Nref=nref).data)
+                ddo = numpy.array(pdo.propagate(ReducedDensityMatrix(data=rho0.copy()), method=meth, Nref=nref).data)
+                if numpy.abs(ddt - ddo).max() > 1e-9:
+                    ck.fail("propagate:ops-vs-tensor:pure-dephasing:%s" % dtyp, "operator-form and tensor-form propagation with an additional %s pure-dephasing "
+                            "object differ" % dtyp, dict(inp, method=meth, Nref=nref), float(numpy.abs(ddt - ddo).max()))
+        except Exception as e:
+            ck.fail("raises:propagate:pure-dephasing", "propagation with a pure-dephasing object raised %r" % (e,), inp)
         # model: needs K, L, Ld in the basis in which they are held (the site basis after leaving the context)
         Heff = numpy.array(ham2.get_RWA_data()) if ham2.has_rwa else numpy.array(ham2.data)
         Km, Lm, Ld = numpy.array(RT_o.Km), numpy.array(RT_o.Lm), numpy.array(RT_o.Ld)
@@ -114,6 +147,24 @@ def run(ck):
         if dl > 1e-9 * scl:
             ck.fail("td:last-is-ti", "time-dependent tensor at its last time index differs from the time-independent tensor", inp, float(dl), float(1e-9 * scl))
         TD_o, hamo = agg.get_RelaxationTensor(ta, relaxation_theory="standard_Redfield", time_dependent=True, as_operators=True)
+        # a recalculation of the same objects (initialize() again, in the eigenbasis as the builder does it): the same operators again
+        try:
+            L_first = numpy.array(TD_o._Lm).copy()
+            for rep_ in range(2):
+                hamo.protect_basis()
+                try:
+                    with eigenbasis_of(hamo):
+                        if hasattr(TD_o, "initialize"):
+                            TD_o.initialize()
+                        else:
+                            TD_o._implementation(hamo, TD_o.SystemBathInteraction)
+                finally:
+                    hamo.unprotect_basis()
+            dvL = float(numpy.abs(numpy.array(TD_o._Lm) - L_first).max()) / max(1e-300, float(numpy.abs(L_first).max()))
+            if dvL > 1e-9:
+                ck.fail("td:reinitialized", "the time-dependent operator form recalculated on the same object differs from its first calculation", inp, dvL)
+        except Exception as e:
+            ck.extra.setdefault("td_reinitialize_errors", []).append(repr(e)[:160])
         # the same with a cut-off time: defined on the whole axis, constant after the cut-off, last index = time-independent tensor
         # with that cut-off, and usable for propagation beyond the cut-off
         try:
